@@ -239,38 +239,43 @@ def _sim_setup(ir, endo, exo, order, intercept, ncol, values=None):
     return model, dbs, sim_span, start
 
 
-def lifted_simulate(ir, model, endo, exo, order, dbs, sim_span, start):
-    """run model.simulate(dbs, sim_span) with the dataslate lifted (initial conditions, exogenous data, residuals); returns (cap, path).
-    Raises whatever the real code raises."""
+def lifted_simulate(ir, model, endo, exo, order, dbs, sim_span, start, all_variants=False):
+    """run model.simulate(dbs, sim_span) with the dataslate lifted (initial conditions, exogenous data, residuals); returns (cap, path), or
+    (list of caps in variant order, path) with all_variants=True.  Symbols of variant v > 0 carry the suffix _v{v}.  Raises whatever the
+    real code raises."""
     from irispie.red_vars import _simulators as rs
     from irispie.fords import simulators as fs
     from irispie.dataslates import _variants as dv
-    cap = {}
+    caps = {}            # id(dataslate variant) -> cap
+    order_seen = []
     real = fs.simulate_flat
     real_exo = rs._simulate_exogenous_impact
 
     def ensure_lifted(ds_v):
         var = ds_v._variants[0]
-        if "inp" in cap:
-            return var
+        if id(var) in caps:
+            return var, caps[id(var)]
+        vi = len(order_seen)
         data = var.data
         names = tuple(ds_v.names)
         periods = tuple(ds_v.periods)
-        label = lambda j: str(periods[j] - start)
+        label = lambda j: str(periods[j] - start) + (f"_v{vi}" if vi else "")
         # initial conditions of the endogenous variables (before the simulation span), exogenous data and residuals inside it
         k_of = lambda j: periods[j] - start
         where = lambda nm, j: (nm in endo and k_of(j) < order) or (nm in exo) or nm.startswith("res_")
         obj, syms = lift_matrix(data, names, where=where, col_label=label)
         var.data = obj
-        cap.update(names=names, periods=periods, inp=obj.copy(), syms=syms, float_data=data)
-        return var
+        cap = dict(names=names, periods=periods, inp=obj.copy(), syms=syms, float_data=data, var=var)
+        caps[id(var)] = cap
+        order_seen.append(cap)
+        return var, cap
 
     def lifted_exo(model_v, ds_v):
         ensure_lifted(ds_v)          # the exogenous impact B x_t is computed before simulate_flat, from the same dataslate
         return real_exo(model_v, ds_v)
 
     def lifted(model_v, ds_v, frame, **kw):
-        var = ensure_lifted(ds_v)
+        var, cap = ensure_lifted(ds_v)
         try:
             r = real(model_v, ds_v, frame, **kw)
             cap["out"] = np.array(var.data, dtype=object)
@@ -281,7 +286,136 @@ def lifted_simulate(ir, model, endo, exo, order, dbs, sim_span, start):
     with npproxy.installed(proxy, fs, rs, extra=[(rs._simulators, "simulate_flat", lifted), (rs, "_simulate_exogenous_impact", lifted_exo)]), \
             npproxy.installed(npproxy.Proxy(object_alloc=False), dv), S.Path() as path:
         model.simulate(dbs, sim_span)
-    return cap, path
+    if all_variants:
+        return order_seen, path
+    return (order_seen[0] if order_seen else {}), path
+
+
+def _sim_setup_multi(ir, endo, exo, order, intercept, ncol, nvar, values=None):
+    """nvar-variant data (different numbers per variant) -> nvar-variant estimate; simulation data likewise"""
+    start = ir.qq(2000, 1)
+    db = ir.Databox()
+    for i, n in enumerate(list(endo) + list(exo)):
+        db[n] = ir.Series(start=start, values=np.array([[0.3 + 0.17 * ((3 * i + 5 * j + 2 * v) % 7) - 0.05 * j + 0.02 * v * ((i + j) % 3) for v in range(nvar)] for j in range(ncol)]))
+    model = ir.RedVAR(list(endo), exogenous_names=list(exo) or None, order=order, intercept=intercept, num_variants=nvar)
+    model.estimate(db, start >> (start + ncol - 1), omit_missing=True)
+    sim_span = (start + order) >> (start + ncol - 1)
+
+    def val(name, j, v, default):
+        return (values or {}).get(f"{name}__{j}" + (f"_v{v}" if v else ""), default)
+    dbs = ir.Databox()
+    for i, n in enumerate(list(endo) + list(exo)):
+        dbs[n] = ir.Series(start=start, values=np.array([[val(n, j, v, 0.3 + 0.17 * ((3 * i + 5 * j + v) % 7) - 0.05 * j + 0.03 * v) for v in range(nvar)] for j in range(ncol)]))
+    for i, n in enumerate(endo):
+        dbs["res_" + n] = ir.Series(start=start + order, values=np.array([[val("res_" + n, j, v, 0.05 * ((2 * i + j + v) % 3) - 0.04) for v in range(nvar)] for j in range(order, ncol)]))
+    return model, dbs, sim_span, start
+
+
+def check_simulate_variants(run, ir, endo, exo, order, intercept, nvar=2):
+    """every variant of a multi-variant VAR follows ITS OWN recursion (own coefficients, own exogenous data, own residuals)"""
+    ncol = order + 2 + order * len(endo) + len(exo) + 1
+    key = f"simulate:endo={endo}:exo={exo}:order={order}:intercept={intercept}:variants={nvar}"
+    case = dict(kind="simulate_variants", endo=list(endo), exo=list(exo), order=order, intercept=intercept, ncol=ncol, nvar=nvar)
+    finding = f"redvar:simulate:variants:exo={len(exo)}"
+    model, dbs, sim_span, start = _sim_setup_multi(ir, endo, exo, order, intercept, ncol, nvar)
+    try:
+        caps, path = lifted_simulate(ir, model, endo, exo, order, dbs, sim_span, start, all_variants=True)
+    except S.SymbolicBranchError:
+        raise
+    except Exception as exc:
+        run.counterexample(key, finding + ":raises", f"RedVAR.simulate raises {type(exc).__name__}: {str(exc)[:140]}", dict(case, values={}))
+        return
+    if len(caps) != nvar or any("out" not in c for c in caps):
+        run.unknown(key, f"{len(caps)} variants reached simulate_flat")
+        return
+    sms = model.get_system_matrices()
+    claims, syms = [], {}
+    ne = len(endo)
+    for v, cap in enumerate(caps):
+        names, periods, out, inp = cap["names"], cap["periods"], cap["out"], cap["inp"]
+        syms.update(cap["syms"])
+        row = {n: i for i, n in enumerate(names)}
+        col = {periods[j] - start: j for j in range(len(periods))}
+        sm = sms[v]
+        A = np.asarray(sm.A, dtype=float)
+        B = np.asarray(sm.B, dtype=float) if exo else None
+        c = np.asarray(sm.c, dtype=float).reshape(-1) if intercept and sm.c is not None else None
+        ypath = {(n, k): inp[row[n], col[k]] for n in endo for k in range(order)}
+        for k in range(order, ncol):
+            for e, n in enumerate(endo):
+                want = S.const(0)
+                for l in range(1, order + 1):
+                    for e2, n2 in enumerate(endo):
+                        want = want + S.float_fraction(float(A[e, (l - 1) * ne + e2])) * ypath[(n2, k - l)]
+                for x_i, xn in enumerate(exo):
+                    want = want + S.float_fraction(float(B[e, x_i])) * inp[row[xn], col[k]]
+                if c is not None:
+                    want = want + S.float_fraction(float(c[e]))
+                want = want + inp[row["res_" + n], col[k]]
+                ypath[(n, k)] = want
+            for e, n in enumerate(endo):
+                got = out[row[n], col[k]]
+                if isinstance(got, float) and math.isnan(got):
+                    run.counterexample(key, finding, f"simulated {n} missing at period {k} (variant {v})", dict(case, values={}))
+                    return
+                claims.append((f"{n}@{k}[variant {v}]", S.const(got).t, S.const(ypath[(n, k)]).t))
+    box = [z3.And(s_.t >= -1, s_.t <= 1) for s_ in syms.values()]
+    assume = box + [path.condition()]
+    r0, _ = run.check_sat(assume, timeout_ms=30000)
+    if r0 != "sat":
+        run.unknown(key, f"reachability witness {r0}")
+        return
+    run.reach_ok += 1
+    tol = Fraction(1, 10 ** 8)
+    big = Fraction(1, 1000)
+    res, mdl = run.check_sat(assume + [z3.Or(*[z3.Or(a - b > tol, a - b < -tol) for _, a, b in claims])], timeout_ms=60000)
+    if res == "unsat":
+        run.ok(key)
+    elif res == "sat":
+        r2, m2 = run.check_sat(assume + [z3.Or(*[z3.Or(a - b > big, a - b < -big) for _, a, b in claims])], timeout_ms=60000)
+        if r2 == "sat":
+            mdl = m2
+        bad = []
+        for labl, a, b in claims:
+            d = mdl.eval(a - b, model_completion=True)
+            fv = Fraction(d.numerator_as_long(), d.denominator_as_long())
+            if abs(fv) > tol:
+                bad.append((labl, float(fv)))
+        vals = model_values(mdl, sorted(syms))
+        run.counterexample(key, finding, f"a variant does not follow its own VAR recursion: {bad[:4]}", dict(case, bad=bad[:6], values={k: [v_.numerator, v_.denominator] for k, v_ in vals.items()}))
+    else:
+        run.unknown(key, f"solver {res}")
+
+
+def _replay_simulate_variants(ir, case):
+    endo, exo, order, intercept, ncol, nvar = tuple(case["endo"]), tuple(case["exo"]), case["order"], case["intercept"], case["ncol"], case["nvar"]
+    vals = {k: float(Fraction(a, b)) for k, (a, b) in case.get("values", {}).items()}
+    model, dbs, sim_span, start = _sim_setup_multi(ir, endo, exo, order, intercept, ncol, nvar, values=vals)
+    try:
+        out = model.simulate(dbs, sim_span)
+    except Exception as exc:
+        return True, f"simulate raises {type(exc).__name__}: {exc}"
+    out = out[0] if isinstance(out, tuple) else out
+    sms = model.get_system_matrices()
+    ne = len(endo)
+    worst, msg = 0.0, "every variant follows its recursion"
+    for v in range(nvar):
+        sm = sms[v]
+        A = np.asarray(sm.A, dtype=float)
+        B = np.asarray(sm.B, dtype=float) if exo else None
+        c = np.asarray(sm.c, dtype=float).reshape(-1) if intercept and sm.c is not None else None
+        g = lambda box, n, k: float(np.asarray(box[n].get_data(start + k)).reshape(-1)[v])
+        y = {(n, k): g(dbs, n, k) for n in endo for k in range(order)}
+        for k in range(order, ncol):
+            for e, n in enumerate(endo):
+                w = sum(A[e, (l - 1) * ne + e2] * y[(n2, k - l)] for l in range(1, order + 1) for e2, n2 in enumerate(endo))
+                w += sum(B[e, i] * g(dbs, xn, k) for i, xn in enumerate(exo)) + (c[e] if c is not None else 0.0) + g(dbs, "res_" + n, k)
+                y[(n, k)] = w
+            for n in endo:
+                d = abs(g(out, n, k) - y[(n, k)])
+                if not d <= worst:
+                    worst, msg = (d if d == d else float("inf")), f"variant {v}, {n}@{k}: simulated {g(out, n, k)!r} vs recursion {y[(n, k)]!r}"
+    return worst > 1e-7, msg
 
 
 def check_simulate(run, ir, endo, exo, order, intercept, ncol=6):
@@ -404,7 +538,7 @@ def main(run):
     run.functions_encoded += ["red_vars._simulators.{Inlay.simulate,_simulate,_simulate_exogenous_impact}, fords.simulators.{simulate_flat,get_init_xi}, red_vars._variants (companion matrices), "
                               "red_vars._invariants._populate_solution_vectors (executed)"]
     run.outside += ["'noise-free data return the generating VAR' (needs uniqueness of the solve, i.e. LAPACK)", "prior dummy observations",
-                    "companion-form mean/eigenvalues/acov (LAPACK eig)", "multiple variants, resampling"]
+                    "companion-form mean/eigenvalues/acov (LAPACK eig)", "estimation with several variants (simulate is checked with 2 variants), resampling"]
     for args in _structures(run.tier):
         try:
             check_structure(run, ir, *args)
@@ -420,6 +554,13 @@ def main(run):
             run.unknown(f"simulate:{endo}:{exo}:{order}", exc)
         except Exception as exc:
             run.error(f"simulate:{endo}:{exo}:{order}", exc)
+    for (endo, exo, order, intercept) in ((("a",), ("x",), 1, True), (("a", "b"), (), 1, True)) + (((("a", "b"), ("x",), 2, True),) if run.tier == "thorough" else ()):
+        try:
+            check_simulate_variants(run, ir, endo, exo, order, intercept, nvar=2)
+        except S.SymbolicBranchError as exc:
+            run.unknown(f"simulate_variants:{endo}:{exo}:{order}", exc)
+        except Exception as exc:
+            run.error(f"simulate_variants:{endo}:{exo}:{order}", exc)
     run.extra["exhaustive"] = True
 
 
@@ -427,6 +568,8 @@ def replay(case):
     ir = load_irispie()
     if case.get("kind") == "simulate":
         return _replay_simulate(ir, case)
+    if case.get("kind") == "simulate_variants":
+        return _replay_simulate_variants(ir, case)
     endo, exo, order, intercept, dof, ncol = tuple(case["endo"]), tuple(case["exo"]), case["order"], case["intercept"], case["dof"], case["ncol"]
     miss = frozenset(tuple(m) for m in case["miss"])
     vals = {k: float(Fraction(a, b)) for k, (a, b) in case.get("values", {}).items()}
